@@ -29,8 +29,6 @@ var trustedSites = map[string]string{
 	"BND|(*gbn.GoBackNConn).Send|slice(param:data,phi:sentBytes,)":                                              "local payload; chunk arithmetic decided by C14 CHUNK-2",
 	// NoiseConn.Write: the caller's own buffer.
 	"BND|(*mailbox.NoiseConn).Write|slice(param:b,phi:bytesWritten,(phi:bytesWritten+phi:chunkSize))": "local buffer; chunk loop clamps chunkSize to the remainder (C15 RDC-3)",
-	// NoiseGrpcConn.Read: n is the result of copy(b, chunk) with chunk a prefix of nextMsg.
-	"BND|(*mailbox.NoiseGrpcConn).Read|slice(load(mailbox.NoiseGrpcConn.nextMsg),load(var:n),)": "n = copy(b, chunk), chunk is a prefix of nextMsg: n <= len(nextMsg); the shape is decided by C15 RDC-2",
 	// AEAD plaintexts: len(plaintext) = len(ciphertext) - 16 for a successful Open, and the ciphertext buffers have fixed sizes;
 	// the bytes are authenticated, i.e. chosen by the key-holding peer and not by the relay.
 	"BND|(*mailbox.Machine).ReadHeader|binary.Uint16(extract0(call:(*mailbox.cipherState).Decrypt))":                      "AEAD plaintext of the 18-byte header array is 2 bytes",
@@ -285,6 +283,11 @@ func checkSlice(c *Checker, rg *Ranger, fn *ssa.Function, in *ssa.Slice) {
 	if in.Max != nil {
 		okHigh = false
 	}
+	// x[n:] with n = copy(dst, src) and src a prefix of x: 0 <= n <= len(src) <= len(x)
+	if in.High == nil && in.Low != nil && isCopyCountWithin(rg, in.Low, in.X) {
+		okLow, okOrder = true, true
+		detail = "low is the count of a copy from a prefix of the same slice (0 <= n <= len)"
+	}
 	// x[n:] with n the count returned by w.Write(x): io.Writer guarantees 0 <= n <= len(x)
 	if in.High == nil && in.Low != nil && isWriteCountOf(rg, in.Low, in.X) {
 		okLow, okOrder = true, true
@@ -327,6 +330,32 @@ func isWriteCountOf(rg *Ranger, n, x ssa.Value) bool {
 		return false
 	}
 	return rg.sameValue(arg, x)
+}
+
+// isCopyCountWithin: n = copy(dst, src) where every definition of src is x
+// itself or a prefix x[:k] of it.
+func isCopyCountWithin(rg *Ranger, n, x ssa.Value) bool {
+	call, ok := unwrapLoadAlloc(n).(*ssa.Call)
+	if !ok {
+		return false
+	}
+	if b, ok := call.Call.Value.(*ssa.Builtin); !ok || b.Name() != "copy" {
+		return false
+	}
+	srcs := expandValues(call.Call.Args[1])
+	if len(srcs) == 0 {
+		return false
+	}
+	for _, s := range srcs {
+		if rg.sameValue(s, x) {
+			continue
+		}
+		if sl, ok := s.(*ssa.Slice); ok && sl.Low == nil && sl.Max == nil && rg.sameValue(sl.X, x) {
+			continue
+		}
+		return false
+	}
+	return true
 }
 
 // checkAssert: a non-comma-ok type assertion must be dominated by a successful
